@@ -228,6 +228,157 @@ func putBlock(e *boolEnc, probs *[8][3][11]uint8, first, ctx int, c *[16]int, eo
 	}
 }
 
+// ---- domain of the inverse transforms: values that fit the 16-bit variables of RFC 6386's code ----
+
+// quantiser tables of RFC 6386 section 14.1 (written out here, not taken from the package)
+var rfcDcQ = [128]int{4, 5, 6, 7, 8, 9, 10, 10, 11, 12, 13, 14, 15, 16, 17, 17, 18, 19, 20, 20, 21, 21, 22, 22, 23, 23, 24, 25, 25, 26, 27, 28, 29, 30, 31, 32, 33, 34, 35, 36, 37, 37, 38, 39, 40, 41, 42, 43, 44, 45, 46, 46, 47, 48, 49, 50, 51, 52, 53, 54, 55, 56, 57, 58, 59, 60, 61, 62, 63, 64, 65, 66, 67, 68, 69, 70, 71, 72, 73, 74, 75, 76, 76, 77, 78, 79, 80, 81, 82, 83, 84, 85, 86, 87, 88, 89, 91, 93, 95, 96, 98, 100, 101, 102, 104, 106, 108, 110, 112, 114, 116, 118, 122, 124, 126, 128, 130, 132, 134, 136, 138, 140, 143, 145, 148, 151, 154, 157}
+var rfcAcQ = [128]int{4, 5, 6, 7, 8, 9, 10, 11, 12, 13, 14, 15, 16, 17, 18, 19, 20, 21, 22, 23, 24, 25, 26, 27, 28, 29, 30, 31, 32, 33, 34, 35, 36, 37, 38, 39, 40, 41, 42, 43, 44, 45, 46, 47, 48, 49, 50, 51, 52, 53, 54, 55, 56, 57, 58, 60, 62, 64, 66, 68, 70, 72, 74, 76, 78, 80, 82, 84, 86, 88, 90, 92, 94, 96, 98, 100, 102, 104, 106, 108, 110, 112, 114, 116, 119, 122, 125, 128, 131, 134, 137, 140, 143, 146, 149, 152, 155, 158, 161, 164, 167, 170, 173, 177, 181, 185, 189, 193, 197, 201, 205, 209, 213, 217, 221, 225, 229, 234, 239, 245, 249, 254, 259, 264, 269, 274, 279, 284}
+
+func clipInt(v, lo, hi int) int {
+	if v < lo {
+		return lo
+	}
+	if v > hi {
+		return hi
+	}
+	return v
+}
+
+func fits16(vs ...int) bool {
+	for _, v := range vs {
+		if v < -32768 || v > 32767 {
+			return false
+		}
+	}
+	return true
+}
+
+// WideIDCT reports whether the inverse DCT of RFC 6386 section 14.3 on the raster block in stores
+// (or, conservatively, computes) a value outside 16 bits.
+func WideIDCT(in [16]int) bool {
+	const c1, c2 = 20091, 35468
+	var tmp [16]int
+	for i := 0; i < 4; i++ {
+		a := in[i] + in[8+i]
+		b := in[i] - in[8+i]
+		t1 := (in[4+i] * c2) >> 16
+		t2 := in[12+i] + ((in[12+i] * c1) >> 16)
+		c := t1 - t2
+		t1 = in[4+i] + ((in[4+i] * c1) >> 16)
+		t2 = (in[12+i] * c2) >> 16
+		d := t1 + t2
+		tmp[i], tmp[12+i], tmp[4+i], tmp[8+i] = a+d, a-d, b+c, b-c
+		if !fits16(in[i], in[4+i], in[8+i], in[12+i], a, b, c, d, t1, t2, a+d, a-d, b+c, b-c) {
+			return true
+		}
+	}
+	for i := 0; i < 4; i++ {
+		ip := tmp[4*i : 4*i+4]
+		a := ip[0] + ip[2]
+		b := ip[0] - ip[2]
+		t1 := (ip[1] * c2) >> 16
+		t2 := ip[3] + ((ip[3] * c1) >> 16)
+		c := t1 - t2
+		t1 = ip[1] + ((ip[1] * c1) >> 16)
+		t2 = (ip[3] * c2) >> 16
+		d := t1 + t2
+		if !fits16(a, b, c, d, t1, t2, a+d+4, a-d+4, b+c+4, b-c+4) {
+			return true
+		}
+	}
+	return false
+}
+
+// WideWHT is the same for the inverse Walsh-Hadamard transform (14.3); out are its 16 outputs.
+func WideWHT(in [16]int) (out [16]int, wide bool) {
+	var tmp [16]int
+	for i := 0; i < 4; i++ {
+		a := in[i] + in[12+i]
+		b := in[4+i] + in[8+i]
+		c := in[4+i] - in[8+i]
+		d := in[i] - in[12+i]
+		tmp[i], tmp[4+i], tmp[8+i], tmp[12+i] = a+b, c+d, a-b, d-c
+		if !fits16(in[i], in[4+i], in[8+i], in[12+i], a, b, c, d, a+b, c+d, a-b, d-c) {
+			wide = true
+		}
+	}
+	for i := 0; i < 4; i++ {
+		ip := tmp[4*i : 4*i+4]
+		a := ip[0] + ip[3]
+		b := ip[1] + ip[2]
+		c := ip[1] - ip[2]
+		d := ip[0] - ip[3]
+		a2, b2, c2, d2 := a+b, c+d, a-b, d-c
+		if !fits16(a, b, c, d, a2+3, b2+3, c2+3, d2+3) {
+			wide = true
+		}
+		out[4*i], out[4*i+1], out[4*i+2], out[4*i+3] = (a2+3)>>3, (b2+3)>>3, (c2+3)>>3, (d2+3)>>3
+	}
+	return out, wide
+}
+
+type dqFactors struct{ y1dc, y1ac, y2dc, y2ac, uvdc, uvac int }
+
+// dequants lists the factor sets a conforming decoder may use for segment s: one set, or - for
+// segmentation switched on without feature data (the class "segnoupd", where the package and the
+// RFC's reference decoder start from different defaults) - both readings.
+func (p *Plan) dequants(s int) []dqFactors {
+	var qs []int
+	switch {
+	case !p.segEnabled:
+		qs = []int{p.baseQ}
+	case !p.segUpdData:
+		qs = []int{p.baseQ, 0}
+	default:
+		v := 0
+		if p.segQP[s] {
+			v = p.segQ[s]
+		}
+		if p.segAbs {
+			qs = []int{v}
+		} else {
+			qs = []int{p.baseQ + v}
+		}
+	}
+	var out []dqFactors
+	for _, q := range qs {
+		q = clipInt(q, 0, 127)
+		idx := func(i int) int {
+			d := 0
+			if p.qdP[i] {
+				d = p.qd[i]
+			}
+			return clipInt(q+d, 0, 127)
+		}
+		f := dqFactors{y1dc: rfcDcQ[idx(0)], y1ac: rfcAcQ[q], y2dc: 2 * rfcDcQ[idx(1)], y2ac: rfcAcQ[idx(2)] * 155 / 100,
+			uvdc: rfcDcQ[idx(3)], uvac: rfcAcQ[idx(4)]}
+		if f.y2ac < 8 {
+			f.y2ac = 8
+		}
+		if f.uvdc > 132 {
+			f.uvdc = 132
+		}
+		out = append(out, f)
+	}
+	return out
+}
+
+// dequantRaster: zig-zag levels times the factors, in raster order; wide if a product leaves 16 bits.
+func dequantRaster(c *[16]int, dc, ac int) (out [16]int, wide bool) {
+	for n := 0; n < 16; n++ {
+		f := ac
+		if n == 0 {
+			f = dc
+		}
+		v := c[n] * f
+		if !fits16(v) {
+			wide = true
+		}
+		out[fZigzag[n]] = v
+	}
+	return out, wide
+}
+
 // ---- random plans ----
 
 type Plan struct {
@@ -257,6 +408,10 @@ type Plan struct {
 	modeMix               int // 0 mostly i16, 1 mostly B_PRED, 2 mixed
 	allowZeroMB           bool
 	padTail               int
+	// Wide is set by Emit when some value RFC 6386's inverse transforms (14.3, 14.4) or the
+	// dequantisation store in 16-bit variables does not fit: the RFC's code then narrows with
+	// implementation-defined results, so the samples of such a frame are not defined by it.
+	Wide bool
 }
 
 func RandPlan(r *Rand, maxDim int, wantFeat string) *Plan {
@@ -479,8 +634,13 @@ type nzCtx struct {
 func (p *Plan) Emit(r *Rand) []byte {
 	coeffs0, coeffsUpd, bmodeProbs := webp.VerifLossyTables()
 	hd := newBoolEnc()
-	hd.flag(r.Bool()) // colour space
-	hd.flag(r.Bool()) // clamping type
+	// colour space 0 (1 is reserved) and clamping type 0 (1 is the encoder's promise that no sample
+	// leaves 0..255 before clamping, which random residuals do not keep): streams with other values
+	// are outside "valid key frames"; the draws are kept so that the remaining choices do not shift
+	r.Bool()
+	r.Bool()
+	hd.flag(false) // colour space
+	hd.flag(false) // clamping type
 	hd.flag(p.segEnabled)
 	if p.segEnabled {
 		hd.flag(p.segUpdMap)
@@ -532,7 +692,7 @@ func (p *Plan) Emit(r *Rand) []byte {
 					upd := r.Intn(1000) < p.updRate
 					hd.put(int(coeffsUpd[t][b][c][k]), upd)
 					if upd {
-						v := r.Pick(r.Intn(256), r.Range(1, 255), 128, 255, 1)
+						v := r.Pick(1+r.Intn(255), r.Range(1, 255), 128, 255, 1)
 						hd.lit(8, v)
 						probs[t][b][c][k] = uint8(v)
 					}
@@ -568,8 +728,10 @@ func (p *Plan) Emit(r *Rand) []byte {
 		var leftNz nzCtx
 		for mx := 0; mx < mbw; mx++ {
 			// segment id
+			seg := 0
 			if p.segEnabled && p.segUpdMap {
 				s := r.Intn(4)
+				seg = s
 				hd.put(segProbs[0], s >= 2)
 				if s < 2 {
 					hd.put(segProbs[1], s == 1)
@@ -684,6 +846,28 @@ func (p *Plan) Emit(r *Rand) []byte {
 					a.y2, leftNz.y2 = 0, 0
 				}
 				continue
+			}
+			// domain check: every value the RFC's dequantisation and inverse transforms store in 16 bits fits
+			for _, f := range p.dequants(seg) {
+				var dcs [16]int
+				if !is4 {
+					raster, w := dequantRaster(&y2.c, f.y2dc, f.y2ac)
+					var w2 bool
+					dcs, w2 = WideWHT(raster)
+					p.Wide = p.Wide || w || w2
+				}
+				for i := range yb {
+					raster, w := dequantRaster(&yb[i].c, f.y1dc, f.y1ac)
+					if !is4 {
+						raster[0] = dcs[i]
+					}
+					p.Wide = p.Wide || w || WideIDCT(raster)
+				}
+				for i := range ub {
+					ru, wu := dequantRaster(&ub[i].c, f.uvdc, f.uvac)
+					rv, wv := dequantRaster(&vb[i].c, f.uvdc, f.uvac)
+					p.Wide = p.Wide || wu || wv || WideIDCT(ru) || WideIDCT(rv)
+				}
 			}
 			ytype := 3
 			if !is4 {
